@@ -36,7 +36,8 @@ REQUIRED_COUNTERS = {"boundary_faults_escaped": {"quick": 300, "thorough": 2000}
                      "pair_faults_EqualFault": {"quick": 20, "thorough": 400},
                      "line_faults_injected": {"quick": 300, "thorough": 10000},
                      "builtin_family_faults": {"quick": 1000, "thorough": 1000},
-                     "arbitrary_inputs": {"quick": 40, "thorough": 40}}
+                     "arbitrary_inputs": {"quick": 40, "thorough": 40},
+                     "fault_free_reruns_after_faults": {"quick": 1000, "thorough": 1000}}
 SHARD_TIMEOUT = {"quick": 400, "thorough": 5400}
 INTERPS = ["3.12", "3.11", "3.10", "3.9"]
 SCENARIOS = ["async_chain", "async_chain_exiting", "hooked_exiting", "hook_replaces", "hook_prunes", "stack_children", "thread",
@@ -655,6 +656,22 @@ def worker(spec):
             res.violation(kind="fault containment", scenario=sc_name, fault=repr(label), problems=problems[:3],
                           interp=interp, mechanisms=sorted(mech))
 
+    def rerun_fault_free(after):
+        """history: the faults of earlier extractions belong to those extractions.  The same scenario extracted
+        again with no fault injected must come out as it did the first time."""
+        s, raised = run_once(thunk, {})
+        res.count("fault_free_reruns_after_faults")
+        # (the "running" scenario extracts the calling stack, which contains this function's frames: only the
+        # absence of errors is comparable there)
+        same = sc_name == "running" or (raised is None and [f.pyframe for f in s.frames] == base_frames)
+        if raised is not None or s.error is not None or not same:
+            if not ST.get("stale_reported"):
+                ST["stale_reported"] = True
+                res.violation(kind="an earlier extraction's fault shows in a later fault-free extraction",
+                              scenario=sc_name, after=repr(after), raised=repr(raised),
+                              error=repr(getattr(s, "error", None)),
+                              frames_equal=same, interp=interp)
+
     sc_name = spec["scenario"]
     thunk, cleanup = scenario(sc_name)
     try:
@@ -678,6 +695,7 @@ def worker(spec):
                     res.count("boundary_faults_injected")
                     res.count("builtin_family_faults")
                     judge(sc_name, key, s, raised, base_frames, key + (cls.__name__,))
+                rerun_fault_free(key)
             pairs = [(a, b) for i, a in enumerate(keys) for b in keys[i + 1:]]
             rng.shuffle(pairs)
             npair = 0
@@ -695,6 +713,8 @@ def worker(spec):
                 if len(ST["faults"]) == 2:
                     res.count("pair_faults_both_reached")
                 judge(sc_name, (a, b), s, raised, None, (a, b))
+                if npair % 8 == 0:
+                    rerun_fault_free((a, b))
         else:
             # line failpoints inside glue hooks, unwrap_stackslice and the low-level analysis code
             from stackscope import _lowlevel as LL
@@ -748,6 +768,8 @@ def worker(spec):
                 if fp.fired:
                     res.count("line_faults_fired")
                 judge(sc_name, ("line", k, fp.fired_at), out, raised, base_frames, ("line", k))
+                if fp.fired and res.counters.get("line_faults_fired", 0) % 16 == 0:
+                    rerun_fault_free(("line", k))
     finally:
         cleanup()
     return res
